@@ -299,3 +299,106 @@ theorem flagged_shapes_not_rowwise :
   exact dictByValue_not_rowwise_witness (by rw [hf]; simp)
 
 end SkVerif.C16
+
+namespace SkVerif.C16
+
+/-! ## Label prediction with a random tie-break (known finding) -/
+
+/- FULL STATEMENT (what the property asks of `predict`; NOT provable for the code as it is):
+     ∀ draws P idx, predictTie draws (select idx P) = select idx (predictTie draws P)
+   BOSSEnsemble / ContractableBOSS / TemporalDictionaryEnsemble (and CIF, DrCIF, ROCKETClassifier,
+   HIVECOTEV1) `predict` draw the label of an instance whose class probabilities are tied from ONE random
+   stream consumed instance after instance, so that label depends on the POSITION of the instance in the
+   batch.  Proved below: the statement under the excluding hypothesis "no row is tied", and its
+   negation at a concrete witness. -/
+
+/-- without ties the random stream is irrelevant: `predict` is the first-maximum rule, row by row -/
+theorem predict_tie_rowwise_partial (draws : Nat → Nat) (P : List (List Rat))
+    (h : ∀ p ∈ P, (argmaxSet p).length = 1) : predictTie draws P = predictFirstMax P :=
+  Lem.predictTie_aux draws P 0 h
+
+/-- … and therefore commutes with every selection of instances -/
+theorem predict_tie_select_partial (draws : Nat → Nat) (P : List (List Rat)) (idx : List Nat)
+    (h : ∀ p ∈ P, (argmaxSet p).length = 1) :
+    predictTie draws (select idx P) = select idx (predictTie draws P) := by
+  rw [predict_tie_rowwise_partial draws P h,
+    predict_tie_rowwise_partial draws _ (fun p hp => h p (Lem.select_mem idx P p hp))]
+  exact perm_equivariant _ idx P
+
+example : ∀ p ∈ [[(1 : Rat), 3], [1, 0]], (argmaxSet p).length = 1 := by decide
+
+/-- the first-maximum rule (TSF, RISE, STSF, column ensembles) is row-wise outright -/
+theorem predict_first_max_rowwise : IsRowWise predictFirstMax := ⟨fun p => (argmaxSet p).headD 0, fun _ => rfl⟩
+
+/-- NEGATION of the full statement at a witness: with a tied instance, swapping two instances does not
+swap the predicted labels -/
+theorem predict_tie_not_equivariant_witness :
+    predictTie (fun i => i) (select [1, 0] [[(1 : Rat), 1], [2, 0]])
+      ≠ select [1, 0] (predictTie (fun i => i) [[(1 : Rat), 1], [2, 0]]) := by
+  decide
+
+end SkVerif.C16
+
+namespace SkVerif.C16
+
+/-! ## Feature unions and the input container (known finding) -/
+
+/- FULL STATEMENT (container invariance of a feature union; NOT provable for the code as it is):
+     ∀ members, unionAccepts members true = unionAccepts members false
+   `Tabularizer.transform` returns a DataFrame for nested input and an ndarray for a 3-D array, and
+   `FeatureUnion._hstack` concatenates with `pd.concat` as soon as one member returned a DataFrame. -/
+
+/-- a union whose members all return DataFrames treats both containers alike -/
+theorem union_container_invariant_partial (members : List MemberOut) (h : ∀ m ∈ members, m = .alwaysFrame) :
+    unionAccepts members true = unionAccepts members false := by
+  unfold unionAccepts
+  congr 1
+  apply List.map_congr_left
+  intro m hm; rw [h m hm]; rfl
+
+example : ∀ m ∈ [MemberOut.alwaysFrame, .alwaysFrame], m = .alwaysFrame := by decide
+
+/-- NEGATION at a witness: a row-transformer next to a Tabularizer accepts the nested frame and
+rejects the 3-D array of the same data -/
+theorem union_container_witness :
+    unionAccepts [.alwaysFrame, .followsInput] false = .ok () ∧
+    unionAccepts [.alwaysFrame, .followsInput] true = .error .type := by
+  constructor <;> rfl
+
+end SkVerif.C16
+
+namespace SkVerif.C16
+
+/-! ## Feature unions match member outputs by index label (known finding) -/
+
+/- FULL STATEMENT (instance independence of a feature union of row-wise members; NOT provable for the
+   code as it is):   ∀ fa fb labels X, labels.length = X.length →
+       unionFreshKept fa fb labels X = .ok (X.map (fun x => (some (fa x), some (fb x))))
+   `FeatureUnion._hstack` glues the member outputs with `pd.concat(axis=1)`, which matches rows by index
+   LABEL; a member that builds a fresh frame (row transformers, RandomIntervalFeatureExtractor, …) labels
+   its rows 0..n-1, a member that keeps the caller's index (Tabularizer) does not. -/
+
+/-- with the default RangeIndex on X the union is the row-by-row pairing of the member outputs -/
+theorem union_default_labels_rowwise_partial {α β : Type} (fa fb : α → β) (X : List α) :
+    unionFreshKept fa fb ((freshLabels X).map (·.1)) X = .ok (X.map (fun x => (some (fa x), some (fb x)))) := by
+  unfold unionFreshKept concat2 freshLabels
+  rw [Lem.zip_freshFrom fb 0 X]
+  simp only [Lem.freshFrom_labels_map, beq_self_eq_true, if_true]
+  rw [Lem.zipWith_freshFrom]
+
+example : (freshLabels ["a", "b", "c"]).map (·.1) = [0, 1, 2] := by decide
+
+/-- NEGATION at a witness: the same two instances handed over in reverse order with their labels kept
+(`X.iloc[[1, 0]]`) — every output row pairs the first member's value of one instance with the second
+member's value of the OTHER instance -/
+theorem union_label_misalignment_witness :
+    unionFreshKept (fun x : Nat => x) (fun x => x) [1, 0] [20, 10]
+      = .ok [(some 20, some 10), (some 10, some 20)] := by
+  rfl
+
+/-- … and a single instance that does not carry label 0 comes back as two half-empty rows -/
+theorem union_single_instance_two_rows_witness :
+    unionFreshKept (fun x : Nat => x) (fun x => x) [2] [30] = .ok [(some 30, none), (none, some 30)] := by
+  rfl
+
+end SkVerif.C16
